@@ -48,7 +48,7 @@ def main(argv=None) -> int:
         import json
 
         for k, rec in enumerate(d.get("trace", [])):
-            print(k, rec.get("actor"), json.dumps(rec["op"], default=str)[:230], "->", rec["outcome"], rec.get("tag", ""))
+            print(k, rec.get("actor"), json.dumps(rec["op"], default=str)[:230], "->", rec.get("outcome"), rec.get("tag", ""))
         print("violations:", d["violations"])
         print("stats:", {k: v for k, v in d["stats"].items() if k.startswith("probe/")})
         return 1 if d["violations"] else 0
